@@ -1208,6 +1208,8 @@ def emit_ins(em, fc, lb, ins, L, phi_moves):
             fnm = em.gname(cal[1])
             if nm.startswith('llvm.'):
                 fnm = intrinsic(em, nm, ins)
+                if nm_is_mem(cal) and ins.args[2][1][0] == 'int':
+                    fnm += '_c'   # constant size
         else:
             fnm = '(%s)' % cv(cal, TPtr(ins.fty) if ins.fty else TPtr(TFunc(ins.ty, [a[0] for a in ins.args], False)))
             if ins.fty is None:
